@@ -76,6 +76,10 @@ var c08Status = map[byte]int{'0': -1, '1': 0, '2': 200, '3': 304, '4': 201, '5':
 
 const c08Ops = "0123456789hewfERTStWIH"
 
+// c08Core: one operation per kind of effect (invalid status, a status, header, empty write, write, flush, error helper,
+// text helper, string write, stream)
+const c08Core = "04hewfETWS"
+
 func c08Apply(c *rux.Context, op byte) {
 	switch op {
 	case 'h':
@@ -226,6 +230,8 @@ type c08Case struct {
 	// Builtin: instead of operation sequences, the requests the router answers itself (default / silent custom 404 and 405
 	// responders, the body-less OPTIONS reply, a handler that does nothing) on every router configuration
 	Builtin bool `json:"builtin_responders,omitempty"`
+	// Alpha != "": the completions are drawn from this sub-alphabet instead of all operations
+	Alpha string `json:"alphabet,omitempty"`
 }
 
 type c08Run_ struct {
@@ -673,8 +679,12 @@ func c08RunCase(c c08Case, st *fw.Stats) []fw.Viol {
 		if len(ops) == c.Depth {
 			return
 		}
-		for i := 0; i < len(c08Ops); i++ {
-			rec(ops + string(c08Ops[i]))
+		alpha := c08Ops
+		if c.Alpha != "" {
+			alpha = c.Alpha
+		}
+		for i := 0; i < len(alpha); i++ {
+			rec(ops + string(alpha[i]))
 		}
 	}
 	rec(c.Prefix)
@@ -707,8 +717,17 @@ func c08Gen(tier string, emit func(c08Case)) {
 			for k := 0; k < n; k++ {
 				p := string(c08Ops[i]) + string(c08Ops[j]) + string(c08Ops[k])
 				emit(c08Case{Prefix: p, Depth: repDepth, Dev: 2, Splits: false, Min: repDepth})
-				if devDepth > 0 {
-					emit(c08Case{Prefix: p, Depth: devDepth, Dev: 1, Splits: false, Min: devDepth})
+			}
+		}
+	}
+	if devDepth > 0 {
+		// length 6 over the ten operations that drive the state machine (one per kind of effect)
+		m := len(c08Core)
+		for i := 0; i < m; i++ {
+			for j := 0; j < m; j++ {
+				for k := 0; k < m; k++ {
+					p := string(c08Core[i]) + string(c08Core[j]) + string(c08Core[k])
+					emit(c08Case{Prefix: p, Depth: devDepth, Dev: 1, Splits: false, Min: devDepth, Alpha: c08Core})
 				}
 			}
 		}
@@ -718,7 +737,7 @@ func c08Gen(tier string, emit func(c08Case)) {
 var c08Spec = fw.Spec[c08Case]{
 	ID:    "C08",
 	Level: "model_checking",
-	Rule: "depth-bounded exhaustive search: ALL operation sequences of length <=4 (thorough 6) over 22 operations {SetStatus(-1,0,200,304,201,404,500,204,103,100), SetHeader, Write(\"\"), Write(\"ab\"), Flush, http.Error(418), Redirect(302), Text(201), Text(200), Context.WriteString, io.WriteString(c.Resp), Stream(203), http.Error(418) from a net/http handler wrapped with WrapH} x every split of the sequence over middleware-before-Next / main handler / middleware-after-Next (also with the tail run by the OnError hook, with the main handler panicking at its end and an OnPanic hook writing a byte, with a HandleContext re-dispatch, right after a request that hijacked its connection, for a request carrying websocket-upgrade headers, and on an underlying writer implementing io.ReaderFrom) x every assignment of <=2 non-default answers (short write, error) to the underlying writes (every split up to length 3 (4), 4 representative splits plus OnError / re-dispatch / ReaderFrom variants at length 4 (5), <=1 fault at length 6 in the thorough tier); " +
+	Rule: "depth-bounded exhaustive search: ALL operation sequences of length <=4 (thorough 6) over 22 operations {SetStatus(-1,0,200,304,201,404,500,204,103,100), SetHeader, Write(\"\"), Write(\"ab\"), Flush, http.Error(418), Redirect(302), Text(201), Text(200), Context.WriteString, io.WriteString(c.Resp), Stream(203), http.Error(418) from a net/http handler wrapped with WrapH} x every split of the sequence over middleware-before-Next / main handler / middleware-after-Next (also with the tail run by the OnError hook, with the main handler panicking at its end and an OnPanic hook writing a byte, with a HandleContext re-dispatch, right after a request that hijacked its connection, for a request carrying websocket-upgrade headers, and on an underlying writer implementing io.ReaderFrom) x every assignment of <=2 non-default answers (short write, error) to the underlying writes (every split up to length 3 (4), 4 representative splits plus OnError / re-dispatch / ReaderFrom variants at length 4 (5), <=1 fault at length 6 over the ten-operation core alphabet {SetStatus(-1), SetStatus(201), SetHeader, Write(\"\"), Write, Flush, http.Error, Text(201), WriteString, Stream} in the thorough tier); " +
 		"plus the requests the router answers by itself (default and silent custom 404 / 405 responders, the body-less OPTIONS reply, do-nothing handlers) on all 384 combinations of 9 router settings; " +
 		"oracle = 20-line writer specification compared with the complete event log of a recording ResponseWriter+Flusher; non-trivial = sequence containing a write, flush or helper",
 	Assume: []string{"Text (WriteBytes) is documented to panic when the underlying write fails; after such a panic only the log so far is compared", "Length() is compared once a header was committed"},
@@ -726,7 +745,7 @@ var c08Spec = fw.Spec[c08Case]{
 		if tier == "quick" {
 			return map[string]any{"ops": len(c08Ops), "depth_all_splits_2_faults": 3, "depth_representative_splits_2_faults": 4}
 		}
-		return map[string]any{"ops": len(c08Ops), "depth_all_splits_2_faults": 4, "depth_representative_splits_2_faults": 5, "depth_1_fault": 6}
+		return map[string]any{"ops": len(c08Ops), "depth_all_splits_2_faults": 4, "depth_representative_splits_2_faults": 5, "depth_1_fault_core_alphabet_of_10": 6}
 	},
 	Gen:   c08Gen,
 	Run:   c08RunCase,
